@@ -12,6 +12,8 @@ META = {
 META["explanation"] += " " + "Also: iterator continuation discipline (a traversal positioned on a replaced node never sees its replacement as well), and del's ownership exchange writes the re-read next word (a committed replace is not overwritten)."
 META["explanation"] += " " + 'Also (rounds 11-12): add_replace result discipline, gc link keeps exactly the BUCKET flag of the replaced word, cds_lfht_replace validates the *old* node against key and hash.'
 
+META["explanation"] += " " + 'Also (round 13): flag bits in node->next are sticky - every in-place read-modify-write on it is an `or` (C06.bits).'
+
 RULES = [
     ("C06.unique", lambda c, r: lfht.rule_unique(c, r, "C06.unique")),
     ("C06.replace", lambda c, r: lfht.rule_replace(c, r, "C06.replace")),
